@@ -2,6 +2,10 @@
 """Collects seeded/<id>/meta.json + result_<tier>.json into seeded/RESULTS.md (the table DESIGN.md §12 refers to)."""
 import json, os, glob
 here = os.path.dirname(os.path.dirname(os.path.abspath(__file__)))
+try:
+    NOTES = json.load(open(os.path.join(here, "seeded", "STRENGTHENED.json")))
+except Exception:
+    NOTES = {}
 rows = []
 for d in sorted(glob.glob(os.path.join(here, "seeded", "C*-*"))):
     sid = os.path.basename(d)
@@ -19,13 +23,14 @@ with open(os.path.join(here, "seeded", "RESULTS.md"), "w") as f:
     f.write("# Seeded breaking changes vs. the registered checks (written by tools/seeded_results.py)\n\n")
     f.write("Each change was written by an independent sub-agent from the property text alone, confirmed (demo fails with / passes\n"
             "without the change; pinned test-suite passes with it) and then run through `./check <prop>` on /repo HEAD + the change.\n\n")
-    f.write("| seed | what the change does | needs, to manifest | quick | thorough | replay |\n|---|---|---|---|---|---|\n")
+    f.write("| seed | what the change does | needs, to manifest | quick | thorough | replay | history |\n|---|---|---|---|---|---|---|\n")
     for sid, meta, res in rows:
         def cell(t):
             r = res.get(t)
             return "–" if not r else "%s (%ss)" % (r["verdict"], r["wall_s"])
         rk = (res.get("quick") or res.get("thorough") or {}).get("replay_kind", "")
-        f.write("| %s | %s | %s | %s | %s | %s |\n" % (
+        f.write("| %s | %s | %s | %s | %s | %s | %s |\n" % (
             sid, (meta.get("summary", "") or "").replace("|", "/").replace("\n", " ")[:260],
-            (meta.get("needs_to_manifest", "") or "").replace("|", "/").replace("\n", " ")[:200], cell("quick"), cell("thorough"), rk))
+            (meta.get("needs_to_manifest", "") or "").replace("|", "/").replace("\n", " ")[:200], cell("quick"), cell("thorough"), rk,
+            NOTES.get(sid, "caught as first run")))
 print("wrote seeded/RESULTS.md (%d seeds)" % len(rows))
